@@ -52,20 +52,23 @@ class Tape:
     """Source of arbitrary values for randomness stubs.  Under CrossHair every draw mints a fresh symbolic
     int (lazily, so only draws that really happen exist) and concretises it over its exact range by solver
     decisions; under replay the recorded draws are played back."""
-    def __init__(self, limit=64):
+    def __init__(self, limit=64, concrete=None):
         self.log = []
         self.limit = limit
+        self.concrete = concrete      # function i -> int: a fixed (deterministic) stream, no solver involved
 
     def draw(self, k):
         """arbitrary value in range(k)"""
         if k <= 0:
             raise ValueError('empty range')
         i = len(self.log)
-        if k > 1:
+        if k > 1 and self.concrete is None:
             self.nontrivial = getattr(self, 'nontrivial', 0) + 1
             if self.nontrivial > self.limit:
                 raise TapeExhausted()
-        if REPLAY_TAPE is not None:
+        if self.concrete is not None:
+            v = self.concrete(i) % k
+        elif REPLAY_TAPE is not None:
             v = REPLAY_TAPE[i] if i < len(REPLAY_TAPE) else 0
             v = v % k
         elif _realize is None or k == 1:
